@@ -79,6 +79,26 @@ def atom_ids(es, names):
     return {n: out[n] for n in names if n in out}
 
 
+def pool_keyed_by_z3(es):
+    """the monitors map clause variables to atoms through the id pool's z3-expression keys; if the pool holds
+    no such key (although clauses exist) the library maps variables differently and nothing can be judged"""
+    import z3
+    try:
+        return any(isinstance(o, z3.ExprRef) for o in es['pool'].obj2id) or False
+    except Exception:
+        return False
+
+
+def only_helper_constants(es, clauses):
+    """every variable of the clauses belongs to a string-keyed helper of the pool (e.g. the encoding of an
+    unsatisfiable clause): no atom mapping is needed to judge such a clause set"""
+    try:
+        helper_ids = {i for o, i in es['pool'].obj2id.items() if isinstance(o, str)}
+        return all(abs(l) in helper_ids for c in clauses for l in c)
+    except Exception:
+        return False
+
+
 def cond_ast(c):
     return fml.from_pysmt(c.consequence), fml.from_pysmt(c.antecedence)
 
@@ -104,10 +124,10 @@ def names_of(es, extra=()):
     return names
 
 
-def check_cnf(es, clauses, want_tt, names, what, text):
+def check_cnf(es, clauses, want_tt, names, what, text, formula_atoms=()):
     """clauses /\\ assignment satisfiable  <=>  assignment in want_tt, for every assignment"""
     ids = atom_ids(es, names)
-    if not ids and any(c for c in clauses):
+    if any(c for c in clauses) and not pool_keyed_by_z3(es) and not only_helper_constants(es, clauses):
         # no atom of the signature is known to the id pool under its name: the mapping this monitor relies on
         # is not the one the library uses (any more) — no verdict
         LOG.bump('cnf_monitor_not_attached')
@@ -155,13 +175,14 @@ def install_cnf_contracts():
         for key, c in es['belief_base'].conditionals.items():
             B, A = cond_ast(c)
             ta, tb = fml.tt(A, names), fml.tt(B, names)
+            fa = fml.atoms(A) | fml.atoms(B)
             text = str(c)
             if v:
-                check_cnf(es, es['v_cnf_dict'][key], ta & tb, names, 'verification', text)
+                check_cnf(es, es['v_cnf_dict'][key], ta & tb, names, 'verification', text, fa)
             if f:
-                check_cnf(es, es['f_cnf_dict'][key], ta & ~tb & F, names, 'falsification', text)
+                check_cnf(es, es['f_cnf_dict'][key], ta & ~tb & F, names, 'falsification', text, fa)
             if nf:
-                check_cnf(es, es['nf_cnf_dict'][key], F & ~(ta & ~tb), names, 'non-falsification', text)
+                check_cnf(es, es['nf_cnf_dict'][key], F & ~(ta & ~tb), names, 'non-falsification', text, fa)
 
     def post_q(old, self, a, kw, result):
         query = a[0] if a else kw['query']
@@ -176,8 +197,9 @@ def install_cnf_contracts():
         if not (isinstance(result, list) and len(result) == 2):
             LOG.viol('cnf:query:bad-result-shape', result=str(result)[:100])
             return
-        check_cnf(es, result[0], ta & tb, names, 'query-verification', str(query))
-        check_cnf(es, result[1], ta & ~tb & F, names, 'query-falsification', str(query))
+        fa = fml.atoms(A) | fml.atoms(B)
+        check_cnf(es, result[0], ta & tb, names, 'query-verification', str(query), fa)
+        check_cnf(es, result[1], ta & ~tb & F, names, 'query-falsification', str(query), fa)
     _wrap(TT, 'belief_base_to_cnf', None, post_bb)
     _wrap(TT, 'query_to_cnf', None, post_q)
 
@@ -209,7 +231,7 @@ def install_mcs_contracts():
             LOG.bump('mcs_skipped_too_many_atoms')
             return
         ids = atom_ids(es, names)
-        if not ids and (wcnf.hard or wcnf.soft):
+        if (wcnf.hard or wcnf.soft) and not pool_keyed_by_z3(es) and not only_helper_constants(es, list(wcnf.hard) + list(wcnf.soft)):
             LOG.bump('mcs_monitor_not_attached')
             return
         softset = {tuple(c) for c in wcnf.soft}
